@@ -85,7 +85,7 @@ type faultConn struct {
 	applied     bool
 	appliedLen  int // length of the write that was modified
 	appliedPos  int
-	bytesAfter  int // bytes forwarded after the modified write
+	bytesAfter  int  // bytes forwarded after the modified write
 	runToEnd    bool // the bytes from the fault position to the end of the modified write are all equal
 	runByte     byte
 	nextSeen    bool // a later write followed; nextByte is its first byte
